@@ -294,9 +294,9 @@ def scope_float_vs_exact(kmax=3, nmax=8):
     """Every confusion matrix with at most nmax validation rows and labels in 0..kmax-1 (top class present): the real
     opf_accuracy in binary64 against the exact rational.  Returns dict(inputs=[(labels, preds, double)], values=number of
     distinct rationals, split=[rationals computed as several doubles], problems=[...]) where a problem is: rational order
-    not preserved by the doubles, a double further than 1e-15 from its rational, or two distinct rationals closer than 2e-4."""
+    not preserved by the doubles, a double further than 1e-15 from its rational, or two accuracies of one validation size whose gap is within 1e-12 of the stop threshold 0.0001."""
     import opfython.math.general as g
-    by_q = {}
+    by_q, by_n = {}, {}
     inputs = []
     for K in range(1, kmax + 1):
         cells = [(a, b) for a in range(K) for b in range(K)]
@@ -313,6 +313,7 @@ def scope_float_vs_exact(kmax=3, nmax=8):
                 f = float(g.opf_accuracy(np.array(labels), preds))
                 q = exact_accuracy(labels, preds)
                 by_q.setdefault(q, set()).add(f)
+                by_n.setdefault(N, set()).add(q)
                 inputs.append((labels, preds, f))
     problems, split = [], []
     qs = sorted(by_q)
@@ -325,9 +326,22 @@ def scope_float_vs_exact(kmax=3, nmax=8):
     for a, b in zip(qs, qs[1:]):
         if not max(by_q[a]) < min(by_q[b]):
             problems.append("rationals %s < %s but doubles %r, %r" % (a, b, sorted(by_q[a]), sorted(by_q[b])))
-        if b - a < Fraction(2, 10 ** 4):
-            problems.append("distinct accuracies %s and %s are closer than 2e-4" % (a, b))
-    return dict(inputs=inputs, values=len(qs), split=split, problems=problems)
+    # the stop test |acc - prev| < 0.0001 compares two outcomes of the SAME validation set size: it is decided alike in
+    # binary64 and exactly unless the exact gap is within 1e-12 of the threshold
+    thr = Fraction(0.0001)
+    min_gap = None
+    for N in sorted(by_n):
+        vals = sorted(by_n[N])
+        for i_, a in enumerate(vals):
+            for b in vals[i_ + 1:]:
+                gap = b - a
+                if min_gap is None or gap < min_gap[0]:
+                    min_gap = (gap, N, a, b)
+                if abs(gap - thr) < Fraction(1, 10 ** 12):
+                    problems.append("%d validation rows: accuracies %s and %s differ by %s, within 1e-12 of the stop threshold" % (N, a, b, gap))
+    return dict(inputs=inputs, values=len(qs), split=split, problems=problems,
+                min_gap=None if min_gap is None else dict(gap=str(min_gap[0]), gap_float=float(min_gap[0]), rows=min_gap[1],
+                                                           between=[str(min_gap[2]), str(min_gap[3])]))
 
 
 def random_label_vectors(rng, count):
@@ -584,11 +598,12 @@ def check(rep, tier, seed):
     except RuntimeError as ex:
         rep.obligation(name, False, str(ex))
     rep.obligation("binary64 opf_accuracy orders any two validation outcomes with DIFFERENT exact accuracies like the rationals, stays "
-                   "within 1e-15 of them, and distinct accuracies are > 2e-4 apart (so the stop test is decided alike): all %d confusion "
+                   "within 1e-15 of them, and no two accuracies of one validation size differ by 0.0001 +- 1e-12 (so the stop test is decided alike): all %d confusion "
                    "matrices with <= %d rows and labels 0..2, %d distinct values" % (len(sc["inputs"]), nmax, sc["values"]),
                    not sc["problems"], "; ".join(sc["problems"][:5]))
     rep.extra["learnfull_binary64_scope"] = dict(
         matrices=len(sc["inputs"]), distinct_accuracies=sc["values"], problems=sc["problems"][:20],
+        smallest_gap_between_distinct_accuracies_of_one_validation_size=sc["min_gap"],
         equal_rationals_computed_as_different_doubles=len(sc["split"]), examples=sc["split"][:8],
         note="an exact accuracy that numpy computes as several doubles lets `acc > max_acc` fire between two iterations of equal "
              "exact accuracy: SupervisedOPF.learn then keeps the later one (findings/C17_learnfull_float_tie.json)")
